@@ -15,7 +15,9 @@
       with a larger index have not (`joinPar`);
     * `resolve_container_inner(parallel = false)` — the mutation ROOT only — awaits one field
       future after the other (`joinSer`); nested selection sets of a mutation are parallel again
-      (`#[Object]` calls `resolve_container`).
+      (`#[Object]` calls `resolve_container`).  `async_graphql::dynamic` schemas differ in one
+      respect (`Cfg.nestedSerial`): `dynamic::resolve::resolve_value` passes `serial = true` for
+      every nested object value, only the query root and list items are joined concurrently.
 
   Events (resolver start / end, errors captured by `Option<T>::resolve` into the request-wide
   list) carry the round in which they happen; within a sub-execution they are listed in the
@@ -72,6 +74,11 @@ structure Cfg where
   c : ExecStatic.Ctx
   perOccurrence : Bool
   gate : Gate
+  /-- nested selection sets are executed by the serial loop too: `false` for derive-built (static)
+      schemas, `true` for `async_graphql::dynamic` schemas, whose `resolve_value` passes
+      `serial = true` for every object / interface / union value (only the query root and list
+      items are joined concurrently there) -/
+  nestedSerial : Bool := false
 
 def okNow (s : Nat) (v : GValue) : TRes := { val := some v, fin := s }
 def failNow (s : Nat) (e : GErr) : TRes := { val := none, up := some e, fin := s }
@@ -219,12 +226,12 @@ def occsOf (g : Cfg) (rt : String) (fuel : Nat) (st : String) (sels : List Sel) 
 def resolveContainerT (g : Cfg) : Bool → Nat → String → String → Nat → List Sel → List PathSeg → Nat → TRes
   | _, 0, _, _, _, _, path, s => failNow s ⟨path, ⟨0, 0⟩⟩   -- out of fuel (never with `fuelBound`)
   | serial, fuel + 1, st, rt, id, sels, path, s =>
-    let fs := (occsOf g rt (fuel + 1) st sels).map (fun occ => runFieldT g (resolveContainerT g false fuel) rt id path occ)
+    let fs := (occsOf g rt (fuel + 1) st sels).map (fun occ => runFieldT g (resolveContainerT g g.nestedSerial fuel) rt id path occ)
     let j := if serial then joinSer s fs else joinPar s (fs.map (· s))
     ofJoin j (fun vs => createValueObject (fuel + 1) (vs.filterMap singleKV))
 
-def run (D : ExecStatic.Defects) (perOcc : Bool) (gate : Gate) (S : Schema) (d : Doc) (opName : Option String)
-    (raw : List (String × GValue)) (w : World) (fuel : Nat) : TRes :=
+def runWith (nestedSerial : Bool) (D : ExecStatic.Defects) (perOcc : Bool) (gate : Gate) (S : Schema) (d : Doc)
+    (opName : Option String) (raw : List (String × GValue)) (w : World) (fuel : Nat) : TRes :=
   match selectOp d opName with
   | none => { val := none, fin := 0 }
   | some op =>
@@ -235,8 +242,13 @@ def run (D : ExecStatic.Defects) (perOcc : Bool) (gate : Gate) (S : Schema) (d :
       | .query => S.query
       | .mutation => S.mutation.getD ""
       | .subscription => S.subscription.getD ""
-    resolveContainerT { c := c, perOccurrence := perOcc, gate := gate } (op.ty == .mutation) fuel root root 0
-      (prune sv fuel op.sels) [] 0
+    resolveContainerT { c := c, perOccurrence := perOcc, gate := gate, nestedSerial := nestedSerial } (op.ty == .mutation)
+      fuel root root 0 (prune sv fuel op.sels) [] 0
+
+/-- a request against a derive-built (static) schema -/
+def run (D : ExecStatic.Defects) (perOcc : Bool) (gate : Gate) (S : Schema) (d : Doc) (opName : Option String)
+    (raw : List (String × GValue)) (w : World) (fuel : Nat) : TRes :=
+  runWith false D perOcc gate S d opName raw w fuel
 
 -- ------------------------------------------------------------------ observables
 
